@@ -77,6 +77,25 @@ def statesync(rnd, n_each):
     return out
 
 
+def replay_after_import(rnd, model_scenarios, n):
+    """model-generated ledger histories (unit amounts: accounts are drained exactly), exported and imported; on the new chain every
+    sender is funded again and every transaction of the old chain is delivered once more (C26 across a genesis round trip)"""
+    out = []
+    pick = model_scenarios if len(model_scenarios) <= n else rnd.sample(model_scenarios, n)
+    for k, h in enumerate(pick):
+        s = _strip(h, "export")
+        s["id"] = "XR%d" % k
+        ids = [t["id"] for st in s["steps"] for t in st.get("txs", []) if "id" in t]
+        steps = [st for st in s["steps"]]
+        steps.append({"op": "export_import", "align": False})
+        steps.append({"op": "block", "txs": [{"id": "f%d" % i, "type": "Send", "from": "o1", "args": {"coin": "BIP", "to": a, "value": "5u"}} for i, a in enumerate(["a1", "a2", "a3"])]})
+        steps.append({"op": "block", "txs": [{"id": "r%d" % i, "repeat": t, "check": True} for i, t in enumerate(ids)]})
+        steps.append({"op": "block"})
+        s["steps"] = steps
+        out.append(s)
+    return out
+
+
 def export_import(rnd, n_each):
     out = []
     for h in mixed_histories(rnd, n_each, "X"):
